@@ -233,6 +233,15 @@ class Program:
                 from . import normalize
 
                 self.substituted_aliases = normalize.run(self)
+        # document order of the ANALYSED tree (inlined code keeps the line numbers of where it came from, so line numbers do not order it)
+        for m in self.modules.values():
+            k = 0
+            stack = [m.tree]
+            while stack:
+                n = stack.pop()
+                n._ord = k
+                k += 1
+                stack.extend(reversed(list(ast.iter_child_nodes(n))))
             for m in self.modules.values():
                 m._symbols = None
             self._class_index = None
@@ -1159,3 +1168,9 @@ def isinstance_alternatives(test, var: str):
             out += a
         return out
     return None
+
+
+def ordkey(node):
+    """Position of a node in the analysed (inlined, normalised) tree; use this, not lineno, to ask what comes first."""
+    o = getattr(node, "_ord", None)
+    return (0, o, 0) if o is not None else (1, getattr(node, "lineno", 0), getattr(node, "col_offset", 0))
